@@ -40,7 +40,9 @@ ANALYSES = {
     "slim_optimize": lambda m: {"value": m.slim_optimize()},
     "fva": lambda m: _frame(flux_variability_analysis(m, processes=1)),
     "fva-fraction": lambda m: _frame(flux_variability_analysis(m, fraction_of_optimum=0.5, reaction_list=[m.reactions[1]], processes=1)),
-    "fva-loopless": lambda m: _frame(flux_variability_analysis(m, loopless=True, reaction_list=[m.reactions[1]], processes=1)),
+    # the values loopless FVA returns depend on which optimal vertex the solver hands back (see checks/c05.py): only
+    # the shape is a uniquely defined quantity
+    "fva-loopless": lambda m: {"index": sorted(flux_variability_analysis(m, loopless=True, reaction_list=[m.reactions[1]], processes=1).index)},
     "fva-pfba_factor": lambda m: _frame(flux_variability_analysis(m, pfba_factor=1.1, reaction_list=[m.reactions[0]], processes=1)),
     "find_blocked_reactions": lambda m: {"blocked": sorted(find_blocked_reactions(m, processes=1))},
     "find_blocked_reactions(open)": lambda m: {"blocked": sorted(find_blocked_reactions(m, open_exchanges=True, processes=1))},
@@ -124,7 +126,14 @@ def c13_analysis(E, names=QUICK, sym=(("EX_A",), ("DM_B",)), objectives=("DM_B:m
     fn = ANALYSES[name]
     if inctx:
         m.__enter__()
-        m.reactions.R2.upper_bound = 8
+        # an edit of the user's own inside the open context (on a reaction whose bounds are concrete here)
+        next(r for r in (m.reactions.R2, m.reactions.R1) if r.id not in which).upper_bound = 8
+    if name == "fva-fraction":
+        # fraction < 1 needs an optimum with the sign of the direction (C05's precondition); otherwise the problem
+        # FVA builds is infeasible and what it returns is left-over solver state, not a defined quantity
+        opt = m.slim_optimize()
+        if not (opt >= 0):
+            return
     before = observe(m)
 
     def run():
